@@ -424,7 +424,7 @@ def values6(rng, tier):
     out = [0, 1, 0xffff, 0x10000, 0xffffffff, 1 << 32, 0xffff00000000 - 1, 0xffff00000000, 0xffff00000001,
            0xffffffffffff, 0xffffffffffff + 1, M6, M6 - 1, 1 << 127, 0xfffe00000000, 0xffff0000ffff,
            0xfffeffffffff, 0x1ffffffff, 0xffff << 48, (0xffff << 32) | 0x01020304]
-    reps = 2 if tier == 'quick' else 6
+    reps = 5 if tier == 'quick' else 10
     for pat in range(256):
         for _ in range(reps):
             v = 0
@@ -558,7 +558,7 @@ def corpus():
 
 
 def generate(rng, tier):
-    mult = 1 if tier == 'quick' else 4
+    mult = 3 if tier == 'quick' else 8
     cases = []
     strings = []
     # ---- values: print, round trip
